@@ -43,10 +43,48 @@ impl<'a> Kind<'a> for &'a [char] {
 
 pub fn span_val<S: SpanObs>(sp: &S) -> Val {
     let (s, e) = sp.se();
-    match sp.cx() {
-        None => Val::Sp(s, e),
-        Some(c) => Val::SpC(c, s, e),
+    Val::Sp(s, e)
+}
+
+// ---- the other input representations (C10): same tokens, different Input implementations ----
+pub type SSpan = chumsky::span::SimpleSpan<usize>;
+pub type CSpan = chumsky::span::SimpleSpan<usize, i64>;
+
+impl<'a, const N: usize> Kind<'a> for &'a [char; N] {
+    const NAME: &'static str = "array";
+    fn toslice<E: ErrTy<'a, Self>>(p: P<'a, Self, E>) -> Result<P<'a, Self, E>, String> {
+        Ok(p.to_slice().map(|s: &'a [char]| slice_val(s.as_ptr() as usize, s.len())).boxed())
     }
+}
+impl<'a> Kind<'a> for &'a [u8] {
+    const NAME: &'static str = "bytes";
+    fn toslice<E: ErrTy<'a, Self>>(p: P<'a, Self, E>) -> Result<P<'a, Self, E>, String> {
+        Ok(p.to_slice().map(|s: &'a [u8]| slice_val(s.as_ptr() as usize, s.len())).boxed())
+    }
+}
+impl<'a, It: Iterator<Item = char> + 'a> Kind<'a> for chumsky::input::Stream<It> {
+    const NAME: &'static str = "stream";
+}
+impl<'a, In, F> Kind<'a> for chumsky::input::MappedInput<char, SSpan, In, F>
+where
+    In: ValueInput<'a> + 'a,
+    F: Fn(
+            In::MaybeToken,
+        ) -> (
+            <In::MaybeToken as chumsky::util::IntoMaybe<'a, In::Token>>::Proj<char>,
+            <In::MaybeToken as chumsky::util::IntoMaybe<'a, In::Token>>::Proj<SSpan>,
+        ) + 'a,
+{
+    const NAME: &'static str = "mapped";
+}
+impl<'a, In: ValueInput<'a, Token = char, Span = SSpan> + 'a> Kind<'a> for chumsky::input::WithContext<CSpan, In> {
+    const NAME: &'static str = "wctx";
+}
+impl<'a, In: ValueInput<'a, Token = char, Span = SSpan> + 'a, F: Fn(SSpan) -> CSpan + 'a> Kind<'a> for chumsky::input::MappedSpan<CSpan, In, F> {
+    const NAME: &'static str = "mapspan";
+}
+impl<'a, R: std::io::Read + std::io::Seek + 'a> Kind<'a> for chumsky::input::IoInput<R> {
+    const NAME: &'static str = "io";
 }
 
 pub trait IntoVal: 'static {
